@@ -59,10 +59,16 @@ static int hlen_of(int h) { return h == 0 ? 20 : h == 1 ? 16 : 32; }
 
 // ---------------- C01 / C02 / C08(file) ----------------
 static long g_files = 0;
-static void roundtrip_case(Rng &rng, int T, int c, int h, size_t n, bool oracle) {
+// seeds whose SHA-1 (the start IV) ends in 0xFF.. bytes, so that a CTR stream of a few blocks carries through several counter bytes
+static std::vector<std::string> g_carry_seeds = {
+#include "carry_seeds.inc"
+};
+static void roundtrip_case(Rng &rng, int T, int c, int h, size_t n, bool oracle, const std::string *force_seed = NULL) {
   const char *suite = "roundtrip";
-  bytes key = rng.buf(16), seed = rng.nzbuf(1 + rng.below(70)), plain = rng.buf(n);
+  bytes key = rng.key16(), seed = rng.nzbuf(1 + rng.below(70)), plain = (g_files & 1) ? rng.padlike(n) : rng.buf(n);
   if (rng.below(5) == 0) { size_t sl = 55 + rng.below(10); seed = rng.nzbuf(sl); }
+  if (!g_carry_seeds.empty() && rng.below(12) == 0) { const std::string &cs = g_carry_seeds[rng.below((uint32_t)g_carry_seeds.size())]; seed.assign(cs.begin(), cs.end()); }
+  if (force_seed) seed.assign(force_seed->begin(), force_seed->end());
   EncRes e = real_enc(T, c, h, key, seed, plain);
   g_files++;
   std::string args = cfgs(T) + " " + S(c) + " " + S(h) + " " + hex(key) + " " + hex(seed) + " " + hex(plain);
@@ -103,6 +109,12 @@ static void suite_roundtrip(Rng &rng) {
   }
   // more chunks than workers and fewer: a few longer files
   for (int i = 0; i < (tier_thorough() ? 60 : 12); i++) { size_t n = chunk * (4 + rng.below(14)) + rng.below((uint32_t)chunk); if (n > 6000) n = 6000; roundtrip_case(rng, Ts[rng.below(6)], rng.below(5), rng.below(3), n, i % 3 == 0); }
+  // start IVs ending in 0xFF bytes: the stream modes, streams long enough for the counter to carry through 3 and 4 bytes
+  for (size_t si = 0; si < g_carry_seeds.size(); si++) for (int T : {1, 2}) {
+    int c = (si + T) % 2 == 0 ? 2 : (int)(1 + (si % 4));
+    if (si < 2) c = 2;
+    roundtrip_case(rng, T, c, (int)(si % 3), 16 * (size_t)(20 * T + 3) + si, true, &g_carry_seeds[si]);
+  }
   emitI("roundtrip", "files", S(g_files));
 }
 
@@ -161,7 +173,7 @@ static void suite_tamper(Rng &rng) {
     int T = (fi % 3 == 0) ? 1 : (fi % 3 == 1 ? 2 : 3), c = fi % 5, h = (fi / 2) % 3;
     size_t n = (fi % 4 == 0) ? rng.below(14) : chunk * (1 + rng.below(3)) + rng.below(20);
     if (n > 140) n = 100 + rng.below(40);
-    bytes key = rng.buf(16), seed = rng.nzbuf(12), plain = rng.buf(n);
+    bytes key = rng.key16(), seed = rng.nzbuf(12), plain = rng.padlike(n);
     EncRes e = real_enc(T, c, h, key, seed, plain);
     const bytes &F = e.file;
     long cnt = 0;
@@ -196,7 +208,8 @@ static void suite_wrongkey(Rng &rng) {
   long tried = 0;
   for (int fi = 0; fi < nfiles; fi++) {
     int T = 1 + fi % 4, c = fi % 5, h = fi % 3;
-    bytes key = rng.buf(16), seed = rng.nzbuf(9), plain = rng.buf(5 + rng.below(120));
+    bytes key = rng.key16(), seed = rng.nzbuf(9), plain = rng.buf(5 + rng.below(120));
+    if (fi % 2 == 1) key[3] = 0;
     EncRes e = real_enc(T, c, h, key, seed, plain);
     auto one = [&](const bytes &k2, bool ml) {
       tried++;
@@ -356,8 +369,8 @@ static void suite_proc(Rng &rng) {
     std::string hist;
     for (int oi = 0; oi < len; oi++) {
       Op o; o.kind = files.empty() ? 0 : rng.below(3); o.T = 1 + rng.below(5); if (rng.below(6) == 0) o.T = 16; o.c = rng.below(5); o.h = rng.below(3);
-      o.key = rng.buf(16); o.seed = rng.nzbuf(6);
-      if (o.kind == 0) { size_t n = rng.below(4) == 0 ? 16 * (size_t)BSZ * rng.below(3) : rng.below(90); o.data = rng.buf(n); }
+      o.key = rng.key16(); o.seed = rng.nzbuf(6);
+      if (o.kind == 0) { size_t n = rng.below(3) == 0 ? 16 * (size_t)BSZ * (1 + rng.below(3)) + rng.below(20) : rng.below(90); o.data = rng.padlike(n); }
       else {
         size_t fi = rng.below((uint32_t)files.size()); o.data = files[fi]; o.key = keys[fi]; o.T = fT[fi];
         int mode = rng.below(4);  // 0,1: valid; 2: wrong key; 3: damaged / truncated / garbage
